@@ -56,12 +56,16 @@ pub(crate) fn runtime_singletons_can_be_cloned_if_needed<'a>(
                                 Type::ScalarPrimitive(_)
                                 | Type::Reference(_)
                                 | Type::Slice(_)
-                                | Type::Array(_)
                                 | Type::RawPointer(_)
                                 | Type::FunctionPointer(_) => {
                                     return None;
                                 }
-                                Type::Path(_) | Type::TypeAlias(_) | Type::Tuple(_) => {}
+                                // An array is `Copy` only if its element type is: it goes through
+                                // the same checks as any other owned type.
+                                Type::Path(_)
+                                | Type::TypeAlias(_)
+                                | Type::Tuple(_)
+                                | Type::Array(_) => {}
                                 Type::Generic(_) => unreachable!(),
                             };
                             let InputParameterSource::Component(id) = source else {
